@@ -83,16 +83,16 @@ impl ArbiterHandle {
 
 // ===================================================================== System: thread-local registration (C10)
 impl System {
-//@extract file=actix-rt/src/system.rs item="impl System / fn set_current" props=C10 name=system::set_current tls_state="CURRENT:current" tls_calls="System::set_current,System::current,System::try_current,System::is_registered,Arbiter::current,Arbiter::try_current"
+//@extract file=actix-rt/src/system.rs item="impl System / fn set_current" props=C10,C09 name=system::set_current tls_state="CURRENT:current" tls_calls="System::set_current,System::current,System::try_current,System::is_registered,Arbiter::current,Arbiter::try_current"
 //@spec
     ensures final(r25_tls).current.v == Some(sys), final(r25_tls).handle == old(r25_tls).handle,   // [C10]
 //@end
-//@extract file=actix-rt/src/system.rs item="impl System / fn current" ret=r props=C10 name=system::current tls_state="CURRENT:current" tls_calls="System::set_current,System::current,System::try_current,System::is_registered,Arbiter::current,Arbiter::try_current" intended_panics
+//@extract file=actix-rt/src/system.rs item="impl System / fn current" ret=r props=C10,C09 name=system::current tls_state="CURRENT:current" tls_calls="System::set_current,System::current,System::try_current,System::is_registered,Arbiter::current,Arbiter::try_current" intended_panics
 //@spec
     requires old(r25_tls).current.v is Some,     // "System is not running": the documented panic
     ensures is_sys(old(r25_tls).current.v, &r), *final(r25_tls) == *old(r25_tls),   // [C10] the system registered on THIS thread
 //@end
-//@extract file=actix-rt/src/system.rs item="impl System / fn try_current" ret=r props=C10 name=system::try_current tls_state="CURRENT:current" tls_calls="System::set_current,System::current,System::try_current,System::is_registered,Arbiter::current,Arbiter::try_current"
+//@extract file=actix-rt/src/system.rs item="impl System / fn try_current" ret=r props=C10,C09 name=system::try_current tls_state="CURRENT:current" tls_calls="System::set_current,System::current,System::try_current,System::is_registered,Arbiter::current,Arbiter::try_current"
 //@spec
     ensures r is Some == old(r25_tls).current.v is Some, r matches Some(s) ==> is_sys(old(r25_tls).current.v, &s), *final(r25_tls) == *old(r25_tls),
 //@end
@@ -133,8 +133,18 @@ impl Arbiter {
 /// system.rs `static SYSTEM_COUNT` / arbiter.rs `static COUNT`: process-wide id counters (values arbitrary)
 pub struct AtomicCounter { }
 pub enum Ordering { Relaxed, SeqCst }
-impl AtomicCounter { #[verifier::external_body] pub fn fetch_add(&self, n: usize, o: Ordering) -> (r: usize) { unimplemented!() } }
+impl AtomicCounter {
+    #[verifier::external_body] pub fn fetch_add(&self, n: usize, o: Ordering) -> (r: usize) { unimplemented!() }
+    /// The counters hand out the ids under which arbiters are REGISTERED with their system (the keys of the controller's
+    /// map): an id is never handed out twice while the process lives, so the counters only ever grow.  Rewinding one
+    /// (store / swap / fetch_sub) lets a later arbiter overwrite a live one's registration — it would never be stopped [C09]
+    #[verifier::external_body] pub fn store(&self, v: usize, o: Ordering) requires false { unimplemented!() }
+    #[verifier::external_body] pub fn swap(&self, v: usize, o: Ordering) -> (r: usize) requires false { unimplemented!() }
+    #[verifier::external_body] pub fn fetch_sub(&self, n: usize, o: Ordering) -> (r: usize) requires false { unimplemented!() }
+    #[verifier::external_body] pub fn load(&self, o: Ordering) -> (r: usize) { unimplemented!() }
+}
 pub const SYSTEM_COUNT: AtomicCounter = AtomicCounter { };
+pub const COUNT: AtomicCounter = AtomicCounter { };
 //@check_struct file=actix-rt/src/arbiter.rs name=ArbiterRunner fields=rx
 pub struct ArbiterRunner { pub rx: mpsc::UnboundedReceiver<ArbiterCommand> }
 /// crate::spawn (tokio spawn_local) of the arbiter's command loop.  PROPHECY name `spawned_runner_chan()`: the queue the
@@ -149,7 +159,7 @@ pub mod krate {
 }
 
 impl System {
-//@extract file=actix-rt/src/system.rs item="impl System / fn construct" ret=r props=C10 name=system::construct tls_state="CURRENT:current" tls_calls="System::set_current,System::current,System::try_current,System::is_registered,Arbiter::current,Arbiter::try_current"
+//@extract file=actix-rt/src/system.rs item="impl System / fn construct" ret=r props=C10,C09 name=system::construct tls_state="CURRENT:current" tls_calls="System::set_current,System::current,System::try_current,System::is_registered,Arbiter::current,Arbiter::try_current"
 //@spec
     ensures
         // the new system is registered as THE system of the constructing thread   [C10]
@@ -158,7 +168,7 @@ impl System {
 //@end
 }
 impl Arbiter {
-//@extract file=actix-rt/src/arbiter.rs item="impl Arbiter / fn in_new_system" ret=r props=C10 name=arbiter::in_new_system tls_state="HANDLE:handle" tls_calls="System::set_current,System::current,System::try_current,System::is_registered,Arbiter::current,Arbiter::try_current"
+//@extract file=actix-rt/src/arbiter.rs item="impl Arbiter / fn in_new_system" ret=r props=C10,C09 name=arbiter::in_new_system tls_state="HANDLE:handle" tls_calls="System::set_current,System::current,System::try_current,System::is_registered,Arbiter::current,Arbiter::try_current"
 //@replace pattern="crate::spawn(" rule=R15
 krate::spawn(
 //@spec
@@ -201,7 +211,7 @@ Runtime::from(
         // feeds this arbiter's queue, and the arbiter has been REGISTERED with the system (one command sent so far)   [C09,C10]
         assert(is_sys(r25_tls.current.v, &sys) && is_hnd(r25_tls.handle.v, rx.chan()));   // [C10]
         assert(r24_trace == seq![1int]);   // [C09] registered before ready
-//@insert fn_end=1
+//@insert fn_exit=1
         // then: ready, the command loop runs on THIS arbiter's queue, and the arbiter is deregistered when the loop has ended   [C09,C10]
         assert(r24_trace == seq![1int, 0int, 2int, 1int]);   // [C09]
         assert(rt.ran_chan() == tx.chan());   // [C10] tasks sent through the handle run on this thread
